@@ -167,6 +167,57 @@ def cacheTrace (maxDur : Nat) (evs : List String) : Option (List String) :=
   -- the harness clock starts at a non-zero instant
   go (CState.init 1700000000000) [] evs
 
+
+/-! ### overlapping calls on a slow directory (`cconc`) -/
+
+def memberOf (content : List (Name × Bool)) (u : Name) : Bool :=
+  ((content.find? (fun p => p.1 == u)).map (·.2)).getD false
+
+/-- one event of a `cconc` history on the two-phase model `kstep`; `content` = the directory -/
+def concEvent (maxDur : Nat) (s : KState) (content : List (Name × Bool)) (ev : String) :
+    Option (KState × List (Name × Bool) × Option String) :=
+  match ev.toList with
+  | 'a' :: rest =>
+    if s.pend.isEmpty then (String.ofList rest).toNat?.map (fun d => (kstep maxDur s (.advance d), content, none))
+    else none
+  | 'd' :: rest =>
+    match (String.ofList rest).splitOn ":" with
+    | [h, v] => do
+      let u ← unhexName h
+      let b ← parseBool v
+      pure (s, (u, b) :: content.filter (fun p => p.1 != u), none)
+    | _ => none
+  | 'b' :: rest =>
+    match (String.ofList rest).splitOn ":" with
+    | [h, hold, kind] => do
+      let u ← unhexName h
+      let hold ← (if hold == "H" then some true else if hold == "N" then some false else none)
+      if kind != "i" && kind != "l" then none
+      let s' := kstep maxDur s (.begin u (some (memberOf content u)) hold)
+      let tok := if s'.c.rets.length == s.c.rets.length then "bp"
+                 else "b" ++ boolStr ((s'.c.rets.head?.map (·.verdict)).getD false)
+      pure (s', content, some tok)
+    | _ => none
+  | 'r' :: rest => do
+    let k ← (String.ofList rest).toNat?
+    if k ≥ s.next then none
+    match s.pend.find? (fun p => p.id == k) with
+    | none => pure (s, content, some "r-")
+    | some p =>
+      let s' := kstep maxDur s (.release k (some (memberOf content p.user)))
+      pure (s', content, some ("r" ++ boolStr ((s'.c.rets.head?.map (·.verdict)).getD false)))
+  | _ => none
+
+def concTrace (maxDur : Nat) (evs : List String) : Option (List String) :=
+  let rec go (s : KState) (content : List (Name × Bool)) (acc : List String) : List String → Option (List String)
+    | [] => some acc.reverse
+    | ev :: rest =>
+      match concEvent maxDur s content ev with
+      | none => none
+      | some (s', content', none) => go s' content' acc rest
+      | some (s', content', some o) => go s' content' (o :: acc) rest
+  go (KState.init 1700000000000) [] [] evs
+
 def modelStep (st : DState) (fs : List String) : DState × String :=
   match fs with
   | ["req", actor, dd, level, op, action, target, index, pending, proof] =>
@@ -199,6 +250,14 @@ def modelStep (st : DState) (fs : List String) : DState × String :=
     match ms.toNat? with
     | some ms =>
       match cacheTrace ms ((evs.splitOn ",").filter (· ≠ "")) with
+      | some [] => (st, "-")
+      | some out => (st, " ".intercalate out)
+      | none => (st, "bad-op")
+    | none => (st, "bad-op")
+  | ["cconc", ms, evs] =>
+    match ms.toNat? with
+    | some ms =>
+      match concTrace ms ((evs.splitOn ",").filter (· ≠ "")) with
       | some [] => (st, "-")
       | some out => (st, " ".intercalate out)
       | none => (st, "bad-op")
@@ -245,6 +304,79 @@ def judgeCache : List String → String
     | none => "bad-op"
   | _ => "bad-op"
 
+
+/-- judge state of an observed `cconc` history: clock, directory content, what the directory offered
+so far, the users of the calls begun so far (in order), index of the verdict -/
+structure JK where
+  now : Nat
+  content : List (Name × Bool)
+  offered : List Consult
+  users : List Name
+  parked : List Nat
+
+/-- every verdict the real code handed out — at once (`b0`/`b1`) or after its question was released
+(`r0`/`r1`) — must satisfy `blackboxOK` with respect to what the directory offered at the calls and
+releases so far. Whether a call asked the directory at all is not the judge's business. -/
+def judgeConc (maxDur : Nat) : JK → List String → List String → String
+  | _, [], _ => "ok"
+  | j, ev :: evs, toks =>
+    match ev.toList with
+    | 'a' :: rest =>
+      match (String.ofList rest).toNat? with
+      | some d => judgeConc maxDur { j with now := j.now + d } evs toks
+      | none => "bad-op"
+    | 'd' :: rest =>
+      match (String.ofList rest).splitOn ":" with
+      | [h, v] =>
+        match unhexName h, parseBool v with
+        | some u, some b => judgeConc maxDur { j with content := (u, b) :: j.content.filter (fun p => p.1 != u) } evs toks
+        | _, _ => "bad-op"
+      | _ => "bad-op"
+    | 'b' :: rest =>
+      match (String.ofList rest).splitOn ":", toks with
+      | h :: _, tok :: toks' =>
+        match unhexName h with
+        | some u =>
+          let k := j.users.length
+          let j' := { j with offered := (⟨j.now, u, some (memberOf j.content u)⟩ : Consult) :: j.offered, users := j.users ++ [u] }
+          if tok == "bp" then judgeConc maxDur { j' with parked := k :: j'.parked } evs toks'
+          else
+            match (if tok == "b1" then some true else if tok == "b0" then some false else none) with
+            | some v =>
+              -- a "no" handed out while a question about the same user is still parked in the directory is a
+              -- refusal during a refresh (fail closed): never counted against the implementation
+              if blackboxOK maxDur j'.offered j.now u v || (!v && j.parked.any (fun p => j.users[p]? == some u)) then
+                judgeConc maxDur j' evs toks'
+              else s!"viol unexplained-verdict call={k} user={hexName u} verdict={boolStr v} t={j.now - 1700000000000}ms overlapping={j.parked.length}"
+            | none => "bad-op"
+        | none => "bad-op"
+      | _, _ => "bad-op"
+    | 'r' :: rest =>
+      match (String.ofList rest).toNat?, toks with
+      | some k, tok :: toks' =>
+        match j.users[k]? with
+        | some u =>
+          if tok == "r-" then judgeConc maxDur j evs toks'
+          else
+            let j' := { j with offered := (⟨j.now, u, some (memberOf j.content u)⟩ : Consult) :: j.offered,
+                               parked := j.parked.filter (· != k) }
+            match (if tok == "r1" then some true else if tok == "r0" then some false else none) with
+            | some v =>
+              if blackboxOK maxDur j'.offered j.now u v then judgeConc maxDur j' evs toks'
+              else s!"viol unexplained-verdict call={k} user={hexName u} verdict={boolStr v} t={j.now - 1700000000000}ms released=1"
+            | none => "bad-op"
+        | none => "bad-op"
+      | _, _ => "bad-op"
+    | _ => "bad-op"
+
+def judgeConcLine : List String → String
+  | ["jk", ms, evs, toks] =>
+    match ms.toNat? with
+    | some ms => judgeConc ms ⟨1700000000000, [], [], [], []⟩ ((evs.splitOn ",").filter (· ≠ ""))
+                   ((toks.splitOn ",").filter (fun t => t ≠ "" && t ≠ "-"))
+    | none => "bad-op"
+  | _ => "bad-op"
+
 /-- `j <actor> <dirdown> <level> <op> <action> <target> <class> <effect>…` -/
 def judgeStep (st : DState) (fs : List String) : DState × String :=
   match fs with
@@ -287,6 +419,7 @@ def judgeStep (st : DState) (fs : List String) : DState × String :=
         else (st', "bad-op")
     | _, _, _, _, _, _, _ => (st, "bad-op")
   | "jc" :: _ => (st, judgeCache fs)
+  | "jk" :: _ => (st, judgeConcLine fs)
   | _ =>
     match cfgStep st fs with
     | some st' => (st', "ok")
